@@ -45,9 +45,10 @@ def random_run(rng: random.Random, depth=None, infeasible=0.0, allow_ctx=False, 
     return out
 
 
-def trace_term(out, variant):
+def trace_term(out, variant, dry=False):
     lim = "[" + "; ".join(f"({out['limits'][r]})%Z" for r in RES) + "]"
-    return f"trace_ok {lim} false {cq_variant(variant)} {len(RES)} {sched.cq_trace(out['trace'])}"
+    return (f"trace_ok {lim} {'true' if dry else 'false'} {cq_variant(variant)} {len(RES)} "
+            f"{sched.cq_trace(out['trace'])}")
 
 
 def correspond_traces(check, variant, n, tag, **kw):
